@@ -1,4 +1,5 @@
 import Bcder.Props.C02
+import Bcder.Props.C02b
 #print axioms Bcder.Props.C02.refines
 #print axioms Bcder.Props.C02.decode_run
 #print axioms Bcder.Props.C02.accepts_iff
@@ -10,3 +11,10 @@ import Bcder.Props.C02
 #print axioms Bcder.Props.C02.indefinite_parent
 #print axioms Bcder.Props.C02.suffix_lemma
 #print axioms Bcder.Props.C02.pnv_eq
+#print axioms Bcder.Props.C02.body_rel_sw
+#print axioms Bcder.Props.C02.vs_sw
+#print axioms Bcder.Props.C02.parseSwitched_same
+#print axioms Bcder.Props.C02b.take_value_spec
+#print axioms Bcder.Props.C02b.readN_spec
+#print axioms Bcder.Props.C02b.readN_top
+#print axioms Bcder.Props.C02b.switched_spec
